@@ -826,6 +826,12 @@ func genRelayPlan(seed uint64, tier string, focus string) *Plan {
 		p.Ops = append(p.Ops, op)
 		p.Ops = append(p.Ops, hang...)
 		hang = nil
+		toTCPBackend := false
+		if op.S["route"] == "none" || op.S["route"] == "own" {
+			for _, b := range p.Cfg.Listens[op.Listen].Backends {
+				toTCPBackend = toTCPBackend || strings.HasPrefix(b, "tcp://")
+			}
+		}
 		if op.S["next"] == "tcp" && op.Settle && g.chance(10) {
 			// the TCP next hop stops reading for some seconds (busy, swapped out) with little room left in its
 			// buffers: the proxy's writes towards it block. What it relays there meanwhile arrives whole, once, in order
@@ -847,7 +853,7 @@ func genRelayPlan(seed uint64, tier string, focus string) *Plan {
 				p.Ops = append(p.Ops, again)
 			}
 			p.Ops[len(p.Ops)-1].Settle = true
-		} else if op.S["next"] == "tcp" && op.Settle && g.chance(12) {
+		} else if (op.S["next"] == "tcp" || toTCPBackend) && op.Settle && g.chance(12) {
 			// the TCP next hop takes the request and closes the connection (restart, idle timeout); the same request is
 			// then sent again: it must arrive there all the same, on a fresh connection
 			p.Ops = append(p.Ops, Op{Kind: "sink-hangup", ID: g.nextID(), S: map[string]string{"outOf": op.ID}})
@@ -862,6 +868,14 @@ func genRelayPlan(seed uint64, tier string, focus string) *Plan {
 			again.I = nil
 			again.Settle = true
 			p.Ops = append(p.Ops, again)
+			if g.chance(60) {
+				// and the far end sends a request of its own back over the connection the proxy has just made anew
+				fo := genRequest(g, &p.Cfg, &relayGenOpts{focus: "followup", maxVal: 200, maxBody: 500}, nil)
+				fo.Proto = "tcp"
+				fo.Conn = ""
+				fo.S["outOf"] = again.ID
+				p.Ops = append(p.Ops, fo)
+			}
 		}
 	}
 	if len(p.Ops) > 0 {
